@@ -177,6 +177,7 @@ func (d *lexDom) start() (*Engine, *State) {
 	e := newEngine(d.p, d)
 	d.e = e
 	e.MaxVisits = 2
+	e.ForkTables = true
 	st := newState()
 	d.lobj = e.NewObj("lexer", d.lexerT)
 	d.tobj = e.NewObj("", nil)
